@@ -22,6 +22,7 @@ type ibField struct {
 	name    string
 	tag     string // existing tag literal content ("" = no tag literal)
 	comment string // trailing comment text ("" = none)
+	typ     string // field type ("" = string); "-" = embedded field (the name is the embedded type)
 }
 
 type ibReporter struct{ viol int }
@@ -45,7 +46,14 @@ func ibSource(header string, structs [][]ibField) string {
 	for si, fs := range structs {
 		fmt.Fprintf(&b, "// S%d 说明 @tag doc:\"comment\"\ntype S%d struct {\n", si, si)
 		for _, f := range fs {
-			fmt.Fprintf(&b, "\t%s string", f.name)
+			switch f.typ {
+			case "":
+				fmt.Fprintf(&b, "\t%s string", f.name)
+			case "-":
+				fmt.Fprintf(&b, "\t%s", f.name)
+			default:
+				fmt.Fprintf(&b, "\t%s %s", f.name, f.typ)
+			}
 			if f.tag != "" {
 				b.WriteString(" `" + f.tag + "`")
 			}
@@ -60,7 +68,32 @@ func ibSource(header string, structs [][]ibField) string {
 }
 
 // ibTags parses a source file and returns field name -> tag literal content for every struct field ("\x00" = no literal).
+// ibSourceGrouped: the same structs inside one grouped declaration  type ( S0 struct{...}; S1 struct{...} )
+func ibSourceGrouped(structs [][]ibField) string {
+	src := ibSource("grouped", structs)
+	var b strings.Builder
+	b.WriteString("// grouped\npackage p\n\ntype (\n")
+	for si, fs := range structs {
+		fmt.Fprintf(&b, "\tS%d struct {\n", si)
+		one := ibSource("", [][]ibField{fs})
+		body := one[strings.Index(one, "struct {\n")+len("struct {\n"):]
+		body = body[:strings.Index(body, "\n}\n")+1]
+		for _, l := range strings.Split(strings.TrimRight(body, "\n"), "\n") {
+			b.WriteString("\t" + l + "\n")
+		}
+		b.WriteString("\t}\n")
+	}
+	b.WriteString(")\n")
+	_ = src
+	return b.String()
+}
+
+// ibTagSpans: byte spans [start, end) of the tag literals, same keys as ibTags
+var ibTagSpans map[string][2]int
+
 func ibTags(src []byte) (map[string]string, error) {
+	spans := map[string][2]int{}
+	defer func() { ibTagSpans = spans }()
 	fs := token.NewFileSet()
 	f, err := parser.ParseFile(fs, "x.go", src, parser.ParseComments)
 	if err != nil {
@@ -77,11 +110,20 @@ func ibTags(src []byte) (map[string]string, error) {
 			return true
 		}
 		for _, fl := range st.Fields.List {
+			if id, ok := fl.Type.(*ast.Ident); ok && len(fl.Names) == 0 { // embedded field
+				if fl.Tag == nil {
+					out[ts.Name.Name+"."+id.Name] = "\x00"
+				} else {
+					out[ts.Name.Name+"."+id.Name] = strings.Trim(fl.Tag.Value, "`")
+					spans[ts.Name.Name+"."+id.Name] = [2]int{fs.Position(fl.Tag.Pos()).Offset, fs.Position(fl.Tag.End()).Offset}
+				}
+			}
 			for _, nm := range fl.Names {
 				if fl.Tag == nil {
 					out[ts.Name.Name+"."+nm.Name] = "\x00"
 				} else {
 					out[ts.Name.Name+"."+nm.Name] = strings.Trim(fl.Tag.Value, "`")
+					spans[ts.Name.Name+"."+nm.Name] = [2]int{fs.Position(fl.Tag.Pos()).Offset, fs.Position(fl.Tag.End()).Offset}
 				}
 			}
 		}
@@ -159,7 +201,21 @@ func ibInjectComment(comment string) (string, bool) {
 // untouched, and every byte outside the annotated fields' tag literals is unchanged.
 func ibCheckFile(rep *ibReporter, name string, before, after []byte, structs [][]ibField) {
 	bt, err1 := ibTags(before)
+	bspans := ibTagSpans
 	at, err2 := ibTags(after)
+	aspans := ibTagSpans
+	blank := func(src []byte, spans map[string][2]int, keys []string) string {
+		out := append([]byte{}, src...)
+		for _, k := range keys {
+			if sp, ok := spans[k]; ok {
+				for i := sp[0]; i < sp[1]; i++ {
+					out[i] = 0
+				}
+			}
+		}
+		return strings.ReplaceAll(string(out), "\x00", "")
+	}
+	var blanked []string
 	if err1 != nil || err2 != nil {
 		rep.report(name, "file no longer parses after injection: %v / %v", err1, err2)
 		return
@@ -167,7 +223,6 @@ func ibCheckFile(rep *ibReporter, name string, before, after []byte, structs [][
 	if len(bt) != len(at) {
 		rep.report(name, "declarations changed: %d fields before, %d after", len(bt), len(at))
 	}
-	outsideBefore, outsideAfter := string(before), string(after)
 	for si, fs := range structs {
 		for _, f := range fs {
 			key := fmt.Sprintf("S%d.%s", si, f.name)
@@ -212,12 +267,11 @@ func ibCheckFile(rep *ibReporter, name string, before, after []byte, structs [][
 					}
 				}
 			}
-			// blank out this field's tag literal on both sides for the outside-bytes comparison
-			outsideBefore = strings.Replace(outsideBefore, "`"+f.tag+"`", "`#`", 1)
-			outsideAfter = strings.Replace(outsideAfter, "`"+at[key]+"`", "`#`", 1)
+			// this field's tag literal is blanked on both sides for the outside-bytes comparison
+			blanked = append(blanked, key)
 		}
 	}
-	if outsideBefore != outsideAfter {
+	if blank(before, bspans, blanked) != blank(after, aspans, blanked) {
 		rep.report(name, "bytes outside the annotated fields' tag literals changed")
 	}
 }
@@ -233,19 +287,23 @@ func ibLastValue(items []ibKV, k string) string {
 }
 
 var ibFieldChoices = []ibField{
-	{"A", `json:"a"`, ""},
-	{"B", `json:"b" valid:"old"`, `@tag valid:"required,to=1~3"`},
-	{"C", `protobuf:"bytes,1,opt,name=c,proto3" json:"c,omitempty"`, `姓名 @tag valid:"required" gorm:"column:c_name"`},
-	{"D", "", `@tag valid:"x"`},
-	{"E", `json:"e"`, `merely mentions @tag`},
-	{"F", `gorm:"column:id" json:"f"`, `@tag gorm:"primaryKey;column:order_id"`},
-	{"G", `layout:"15:04" json:"g"`, `@tag json:"g2" layout:"15h04" new:"n"`},
-	{"H", `protobuf:"bytes,3,opt,name=sep,def=\\n" json:"h"`, `@tag valid:"required"`},
-	{"I", `json:"i"`, `plain comment`},
-	{"J", `valid:"a"`, `@tag valid:"required" other:"to=1~3"`},
-	{"K", "", ""},
-	{"L", `valid:"a" json:"l"`, `@tag valid:"required" valid:"to=1~3"`},
-	{"M", `json:"m"`, `@tag valid:"required" valid:"to=1~3"`},
+	{"A", `json:"a"`, "", ""},
+	{"B", `json:"b" valid:"old"`, `@tag valid:"required,to=1~3"`, ""},
+	{"C", `protobuf:"bytes,1,opt,name=c,proto3" json:"c,omitempty"`, `姓名 @tag valid:"required" gorm:"column:c_name"`, ""},
+	{"D", "", `@tag valid:"x"`, ""},
+	{"E", `json:"e"`, `merely mentions @tag`, ""},
+	{"F", `gorm:"column:id" json:"f"`, `@tag gorm:"primaryKey;column:order_id"`, ""},
+	{"G", `layout:"15:04" json:"g"`, `@tag json:"g2" layout:"15h04" new:"n"`, ""},
+	{"H", `protobuf:"bytes,3,opt,name=sep,def=\\n" json:"h"`, `@tag valid:"required"`, ""},
+	{"I", `json:"i"`, `plain comment`, ""},
+	{"J", `valid:"a"`, `@tag valid:"required" other:"to=1~3"`, ""},
+	{"K", "", "", ""},
+	{"L", `valid:"a" json:"l"`, `@tag valid:"required" valid:"to=1~3"`, ""},
+	{"M", `json:"m"`, `@tag valid:"required" valid:"to=1~3"`, ""},
+	// an inline struct whose inner field carries the identical tag literal; an embedded field; a multi-line func type
+	{"N", `json:"-"`, `@tag valid:"required"`, "struct {\n\t\tIn string `json:\"-\"`\n\t}"},
+	{"O", `json:"o"`, `@tag valid:"required"`, "-"},
+	{"P", `json:"p"`, `@tag valid:"exist"`, "[]*struct{ X, Y int }"},
 }
 
 func ibStructs(sel []int) [][]ibField {
@@ -303,8 +361,20 @@ func TestVerifBoundedC06(t *testing.T) {
 		after, _ := os.ReadFile(p)
 		ibCheckFile(rep, "C06.merge", src, after, structs)
 		os.Remove(p)
+		if len(sel) == 2 || len(sel) == 4 { // the same fields as structs of one grouped type declaration
+			gs := structs
+			if len(sel) == 2 {
+				gs = [][]ibField{{structs[0][0]}, {structs[0][1]}}
+			}
+			gsrc := []byte(ibSourceGrouped(gs))
+			os.WriteFile(p, gsrc, 0644)
+			handleFile(p)
+			gafter, _ := os.ReadFile(p)
+			ibCheckFile(rep, "C06.merge", gsrc, gafter, gs)
+			os.Remove(p)
+		}
 	})
-	fmt.Printf("BOUNDED name=C06.merge cases=%d bound=every file of 1..%d fields drawn from 13 field shapes (with/without tag literal, with/without @tag comment, comments merely mentioning @tag, values containing ':' ';' and backslashes, several keys, non-ASCII text, raw strings and doc comments containing @tag), two fields per struct, all processed in one process through handleFile: merged tags, untouched fields, bytes outside tag literals, still parses\n", n, maxFields)
+	fmt.Printf("BOUNDED name=C06.merge cases=%d bound=every file of 1..%d fields drawn from 16 field shapes (with/without tag literal, with/without @tag comment, comments merely mentioning @tag, values containing ':' ';' and backslashes, several keys, non-ASCII text, raw strings and doc comments containing @tag), two fields per struct, all processed in one process through handleFile: merged tags, untouched fields, bytes outside tag literals, still parses\n", n, maxFields)
 	if rep.viol > 0 {
 		t.Fatalf("%d violations", rep.viol)
 	}
@@ -348,7 +418,7 @@ func TestVerifBoundedC07(t *testing.T) {
 			rep.report("C07.idempotent", "file %v changed on a repeated run:\n--- after run 1:\n%s\n--- after run 2:\n%s", sel, ibDiffLine(once, twice, four), "")
 		}
 	})
-	fmt.Printf("BOUNDED name=C07.idempotent cases=%d bound=every file of 1..%d fields from 13 field shapes: run 1 (-f), run 2 (-d), runs 3-4 (-p, -f) leave the bytes of run 1; files without applicable annotations are unchanged by run 1\n", n, maxFields)
+	fmt.Printf("BOUNDED name=C07.idempotent cases=%d bound=every file of 1..%d fields from 16 field shapes: run 1 (-f), run 2 (-d), runs 3-4 (-p, -f) leave the bytes of run 1; files without applicable annotations are unchanged by run 1\n", n, maxFields)
 	if rep.viol > 0 {
 		t.Fatalf("%d violations", rep.viol)
 	}
@@ -381,7 +451,7 @@ func TestVerifBoundedC19(t *testing.T) {
 	plain[0][0].name = "A0"
 	odd := [][]ibField{{ibFieldChoices[3], ibFieldChoices[4], ibFieldChoices[10]}}
 	odd[0][0].name, odd[0][1].name, odd[0][2].name = "D0", "E1", "K2"
-	oddSrc := ibSource("odd", odd) + "\ntype (\n\tG1 struct {\n\t\tX string `json:\"x\"` // @tag valid:\"required\"\n\t}\n\tG2 int\n)\n\nfunc local() {\n\ttype L struct {\n\t\tY string `json:\"y\"` // see @tag\n\t}\n\t_ = L{}\n}\n// trailing @tag"
+	oddSrc := ibSource("odd", odd) + "\ntype (\n\tG1 struct {\n\t\tX string `json:\"x\"` // @tag valid:\"required\"\n\t}\n\tG2 int\n\tG4 struct {\n\t\tZ string `json:\"z\"` // @tag valid:\"required\"\n\t}\n)\n\ntype G3 struct {\n\tEmb `json:\"e\"` // @tag valid:\"required\"\n\tTitle string `` // @tag todo: nothing here\n}\n\nfunc local() {\n\ttype L struct {\n\t\tY string `json:\"y\"` // see @tag\n\t}\n\t_ = L{}\n}\n// trailing @tag"
 	files := map[string][]byte{
 		"a_broken.pb.go":  []byte("package p\n\ntype S struct {\n\tX string `json:\"x\"` // @tag valid:\"required\"\n"),
 		"b_plain.pb.go":   []byte(ibSource("plain", plain)),
@@ -440,7 +510,8 @@ func TestVerifBoundedC19(t *testing.T) {
 				}
 			case "d_odd.pb.go":
 				at, err := ibTags(after)
-				if err != nil || at["G1.X"] != `json:"x" valid:"required"` || at["S0.D0"] != "\x00" || at["L.Y"] != `json:"y"` {
+				if err != nil || at["G1.X"] != `json:"x" valid:"required"` || at["S0.D0"] != "\x00" || at["L.Y"] != `json:"y"` ||
+				at["G3.Emb"] != `json:"e" valid:"required"` || at["G3.Title"] != "" || at["G4.Z"] != `json:"z" valid:"required"` {
 					rep.report("C19.odd", "mode %d: grouped/local declarations, field without tag literal: %v %v", mode, at, err)
 				}
 			}
